@@ -62,8 +62,10 @@ def check_one(job):
     if not _model:
         _model.append(X.ExprModel())
     e, conforming = make(job)
+    # the spelling of the expression: blanks between all tokens / none / upper-case operators / random blanks
+    style = (hash(str(job)) if False else sum(ord(c) for c in str(job))) % 4
     try:
-        r = X.compare(e, _model[0])
+        r = X.compare(e, _model[0], style=style, rng=random.Random(str(job)))
     except Exception:   # noqa
         _model.clear()
         raise
